@@ -199,6 +199,17 @@ func (c *Core) mount(ctx context.Context, entry *routing.MountEntry) error {
 		return logical.CodedError(403, "mount type of %q is not mountable", entry.Type)
 	}
 
+	// The router recognises a child namespace by its sys/ mount (see
+	// MountConflict). A sealed namespace has no mounts in the router, but its
+	// path is taken all the same: ask the namespace store, too.
+	ns, err := namespace.FromContext(ctx)
+	if err != nil {
+		return err
+	}
+	if pathNS, _ := c.namespaceStore.GetNamespaceByLongestPrefix(ctx, entry.Path); pathNS != nil && pathNS.ID != ns.ID {
+		return logical.CodedError(409, "existing namespace at %s", pathNS.Path)
+	}
+
 	// Mount internally
 	if err := c.mountInternal(ctx, entry, true); err != nil {
 		return err
